@@ -4,6 +4,7 @@
 -/
 import Mtv.Schema.Crc
 import Mtv.Schema.Matches
+import Mtv.Schema.Names
 import Mtv.Gen.SchemaApi
 import Mtv.Gen.SchemaMt
 import Mtv.Gen.Registry
@@ -54,6 +55,25 @@ def apiMatchOk (ch : List Def) : Bool :=
 
 def mtMatchOk (ch : List Def) : Bool :=
   (ch.filter isServiceDef).all (defMatch TM registry) && ch.all (typeRowOk TM)
+
+/-- a chunk of API definitions: the fields of the registered type carry the names of the parameters
+(normalised; listed exceptions), position by position -/
+def apiNamesOk (ch : List Def) : Bool := (ch.filter isApiDef).all (defNamesOk fieldNames)
+
+def mtNamesOk (ch : List Def) : Bool := (ch.filter isServiceDef).all (defNamesOk fieldNames)
+
+/-- the name table of a registry chunk has one row per registered constructor, under its id, with one
+name per field (the texts themselves are compared with the registry's `String`s by the compiled
+driver on every run; the kernel is slow on `String`) -/
+def regNamesRowsOk : List CtorDesc → NameTable → Bool
+  | [], [] => true
+  | c :: cs, n :: ns => c.id == n.1 && c.fields.length == n.2.length && regNamesRowsOk cs ns
+  | _, _ => false
+
+def regNamesChunksOk : List (List CtorDesc) → List NameTable → Bool
+  | [], [] => true
+  | c :: cs, n :: ns => regNamesRowsOk c n && regNamesChunksOk cs ns
+  | _, _ => false
 
 /-- one registered constructor is recorded in the literal interface / enum tables -/
 def regRowOk (c : CtorDesc) : Bool :=
